@@ -161,7 +161,7 @@ def gen_history(rng, pool):
     t = 0
     for _ in range(rng.randint(1, 7)):
         name = rng.choice(['qm', 'qm', 'qm2', 'qu', 'qmix', 'tc1', 'tc2', 'resp', 'resp2', 'bad', 'respY', 'bye'])
-        evs.append((t, name, rng.choice(['10.0.0.7', '10.0.0.8']), rng.choice([5353, 5353, 5353, 40000])))
+        evs.append((t, name, rng.choice(['10.0.0.7', '10.0.0.8', 'fe80::7']), rng.choice([5353, 5353, 5353, 40000])))
         t += rng.choice([1, 30, 130, 450, 600, 1100, 1300, 5000])
     return evs
 
@@ -181,12 +181,23 @@ def run_history(evs, pool, doubled):
             def update_service(self, zc, t, n):
                 trace.append(('cb', sim.now - t0[0], 'upd', n))
         t0 = [0]
+        from zeroconf._updates import RecordUpdateListener
+
+        class Raw(RecordUpdateListener):
+            def async_update_records(self, zc, now, records):
+                if t0[0]:
+                    trace.append(('cb', sim.now - t0[0], 'raw-update', len(records)))
+
+            def async_update_records_complete(self):
+                if t0[0]:
+                    trace.append(('cb', sim.now - t0[0], 'raw-complete', 0))
 
         async def main():
-            a = await sim.start_host('A', '10.0.0.1')
+            a = await sim.start_host('A', '10.0.0.1', addr6='fe80::1', families=('v4', 'v6'))
             x = ServiceInfo(T, 'x.' + T, port=80, addresses=[bytes([10, 0, 0, 1])], server='h.local.')
             await a.azc.async_register_service(x)
             br = AsyncServiceBrowser(a.zc, ['_u._udp.local.'], listener=L())
+            a.zc.async_add_listener(Raw(), None)
             await sim.sleep(30000)
             t0[0] = sim.now
             base = len(sim.net.log)
@@ -196,7 +207,10 @@ def run_history(evs, pool, doubled):
                 sim.randoms['tc_delay'] = [450]
                 data = pool[name]
                 for _ in range(2 if doubled else 1):
-                    sim.net.inject(a, data, (src, port))
+                    if ':' in src:
+                        sim.net.inject(a, data, (src, port, 0, 3), sock=1)     # IPv6 socket: 4-tuple source
+                    else:
+                        sim.net.inject(a, data, (src, port))
             await sim.sleep(6000)
             for (ms, host, dest, data, idx) in sim.net.log[base:]:
                 trace.append(('send', ms - t0[0], dest, data))
